@@ -286,6 +286,15 @@ func (a *absint) eval(v ssa.Value) ival {
 // solvePhi: least fixpoint with widening for a loop-carried phi. The phi is assumed ⊥, its
 // operands are evaluated, the result joined and re-assumed; a bound that keeps moving is
 // widened to the type's bound.
+// deadPhiEdge: the i-th incoming edge of phi can never be taken.
+func (a *absint) deadPhiEdge(phi *ssa.Phi, i int) bool {
+	b := phi.Block()
+	if b == nil || i >= len(b.Preds) || a.w.dead == nil {
+		return false
+	}
+	return deadEdge(b.Preds[i], b) || !a.w.liveBlock(b.Preds[i])
+}
+
 func (a *absint) solvePhi(phi *ssa.Phi) ival {
 	tr := typeRange(phi.Type())
 	saveMemo, saveSolve := a.memo, a.inSolve
@@ -302,7 +311,10 @@ func (a *absint) solvePhi(phi *ssa.Phi) ival {
 			a.memo[k] = v
 		}
 		next := ival{1, 0}
-		for _, e := range phi.Edges {
+		for i, e := range phi.Edges {
+			if a.deadPhiEdge(phi, i) {
+				continue
+			}
 			ev := a.eval(e)
 			next = next.join(ev)
 		}
@@ -384,6 +396,9 @@ func (a *absint) lenOf(v ssa.Value) ival {
 		a.active[x] = true
 		r := ival{1, 0}
 		for i, e := range x.Edges {
+			if a.deadPhiEdge(x, i) {
+				continue
+			}
 			pred := x.Block().Preds[i]
 			last := pred.Instrs[len(pred.Instrs)-1]
 			er := a.lenOf(e)
@@ -490,7 +505,10 @@ func (a *absint) eval1(v ssa.Value) ival {
 	case *ssa.Phi:
 		var r ival
 		first := true
-		for _, e := range x.Edges {
+		for i, e := range x.Edges {
+			if a.deadPhiEdge(x, i) {
+				continue
+			}
 			ev := a.eval(e)
 			if first {
 				r, first = ev, false
@@ -526,6 +544,23 @@ func (a *absint) eval1(v ssa.Value) ival {
 		if ic := indexSearch(x); ic != nil {
 			l := a.lenOf(ic.Call.Args[0])
 			return ival{-1, sat(l.hi - 1)}
+		}
+		if els := orArgs(x); len(els) > 0 && isIntType(x.Type()) {
+			// cmp.Or: one of the arguments; zero only when the last one can be zero
+			r := ival{1, 0}
+			for i, e := range els {
+				er := a.eval(e)
+				if i < len(els)-1 && er.lo == 0 && er.hi > 0 {
+					er.lo = 1 // a zero is skipped
+				}
+				if i < len(els)-1 && er.lo == 0 && er.hi == 0 {
+					continue
+				}
+				r = r.join(er)
+			}
+			if !r.empty() {
+				return r
+			}
 		}
 		if cal := x.Call.StaticCallee(); cal != nil {
 			name := cal.String()
@@ -1162,6 +1197,19 @@ func (a *absint) refineWith(t Term, r ival, facts []TFact, at ssa.Instruction, d
 	if depth <= 0 {
 		return r
 	}
+	// `!=` facts only trim the boundaries: pass again while something moved (x ∈ [0,2],
+	// x != 1, x != 2 leaves {0} only on the second pass)
+	for pass := 0; pass < 4; pass++ {
+		r0 := r
+		r = a.refineOnce(t, r, facts, at, depth)
+		if r == r0 {
+			break
+		}
+	}
+	return r
+}
+
+func (a *absint) refineOnce(t Term, r ival, facts []TFact, at ssa.Instruction, depth int) ival {
 	for _, f := range facts {
 		isX, isY := a.sameTerm(f.X, t), a.sameTerm(f.Y, t)
 		if !isX && !isY {
